@@ -112,6 +112,12 @@ func rulioSCCs(w *World) []scc {
 // of those), using only projection / assembly operations and static calls (interface invokes and calls of
 // function values break the chain: their result is not a sub-structure of the input).
 func projectionDerived(fn *ssa.Function, v ssa.Value) bool {
+	return projectionDerivedFrom(fn, v, nil)
+}
+
+// projectionDerivedFrom: as projectionDerived, with only the given parameter counting as the root (nil: any
+// parameter or free variable).
+func projectionDerivedFrom(fn *ssa.Function, v ssa.Value, only *ssa.Parameter) bool {
 	type res struct{ reachesParam, projected bool }
 	memo := map[ssa.Value]res{}
 	var rec func(v ssa.Value, d int) res
@@ -134,9 +140,9 @@ func projectionDerived(fn *ssa.Function, v ssa.Value) bool {
 		}
 		switch x := v.(type) {
 		case *ssa.Parameter:
-			out = res{true, false}
+			out = res{only == nil || x == only, false}
 		case *ssa.FreeVar:
-			out = res{true, false}
+			out = res{only == nil, false}
 		case *ssa.Lookup:
 			merge(rec(x.X, d+1), true)
 		case *ssa.Index:
